@@ -388,15 +388,19 @@ fn prepare(sc: &Scenario, renderer: &str, rootp: &Path, tag: &str, tmp_root: &Pa
         args.push("--timeout-seconds".into());
         args.push(t.to_string());
     }
-    match sc.cli.combine_output {
-        Some(true) => args.push("--combine-output".into()),
-        Some(false) => args.push("--no-combine-output".into()),
-        None => {}
+    match (sc.cli.combine_output, sc.cli.negated_first) {
+        (Some(true), false) => args.push("--combine-output".into()),
+        (Some(false), false) => args.push("--no-combine-output".into()),
+        (Some(true), true) => args.extend(["--no-combine-output".to_string(), "--combine-output".to_string()]),
+        (Some(false), true) => args.extend(["--combine-output".to_string(), "--no-combine-output".to_string()]),
+        (None, _) => {}
     }
-    match sc.cli.keep_crlf {
-        Some(true) => args.push("--keep-output-crlf".into()),
-        Some(false) => args.push("--no-keep-output-crlf".into()),
-        None => {}
+    match (sc.cli.keep_crlf, sc.cli.negated_first) {
+        (Some(true), false) => args.push("--keep-output-crlf".into()),
+        (Some(false), false) => args.push("--no-keep-output-crlf".into()),
+        (Some(true), true) => args.extend(["--no-keep-output-crlf".to_string(), "--keep-output-crlf".to_string()]),
+        (Some(false), true) => args.extend(["--keep-output-crlf".to_string(), "--no-keep-output-crlf".to_string()]),
+        (None, _) => {}
     }
     if sc.cli.cram_compat {
         args.push("--cram-compat".into());
